@@ -920,3 +920,5 @@ def _run(world: World, plan):
     built = state.get('built', {})
     return common.finish(world, nontrivial, [(built.get('parent'), built.get('children'), built.get('others')),
                                              sig_requests, sig_steps])
+
+INFO['rule'] += ' Round-5 additions: askers without listening ports that pierce on request (portless), connect mode fallback / race, memory of received requests of 0..3 entries (store_amount).'
